@@ -422,6 +422,10 @@ OPS += [
        m_ttv, public="ttv"),
     Op("ttm:dims", None, lambda A, B, p: A.ttm([np.array(M, dtype=float) for M in p["Ms"]], np.array(p["dims"], dtype=int)),
        m_ttm, public="ttm"),
+    Op("setitem:region", None, lambda A, B, p: _setitem(A, _region_key(p["parts"]), p["v"]), lambda c, a, b: {
+        "op": "c04_sparse", "start": Aj(c, a),
+        "ops": [{"op": "write", "key": {"k": "region", "parts": p_parts(c["p"]["parts"])}, "rhs": {"r": "scalar", "v": c["p"]["v"]}}]},
+       public="__setitem__"),
     Op("getitem:int", None, lambda A, B, p: A[_key_at(A, p["n"], p["k"])], m_index("int"), public="__getitem__"),
     Op("getitem:list", None, lambda A, B, p: A[_key_at(A, p["n"], list(p["ks"]))], m_index("list"), public="__getitem__"),
     Op("sptenmat.full_norm", lambda rng, s: {"r": [0]},
@@ -432,6 +436,31 @@ OPS += [
 
 def _key_at(A, n, k):
     return tuple(k if m == n else slice(None) for m in range(len(A.shape)))
+
+
+def _region_key(parts):
+    """parts: per mode ["int", k] | ["slice", lo, hi] | ["list", [..]]"""
+    key = []
+    for q in parts:
+        if q[0] == "int":
+            key.append(int(q[1]))
+        elif q[0] == "slice":
+            key.append(slice(q[1], q[2]))
+        else:
+            key.append(list(q[1]))
+    return tuple(key)
+
+
+def p_parts(parts):
+    out = []
+    for q in parts:
+        if q[0] == "int":
+            out.append({"int": q[1]})
+        elif q[0] == "slice":
+            out.append({"slice": [q[1], q[2], None]})
+        else:
+            out.append({"list": q[1]})
+    return out
 
 
 def _spm_setitem(A, p):
@@ -765,6 +794,38 @@ class Collisions(OrderIndependence):
                         add("getitem:list", s, a, {"n": n, "ks": sorted({0, s[n] - 1})})
                         add("scale:vector", s, a, {"d": n, "v": [0 if k == 0 else k + 1 for k in range(s[n])]})
                     add("squash", s, a, {})
+        # region writes with a non-zero scalar that GROW the shape (or add a trailing mode) AND cover stored entries
+        for s in ([3, 4, 5], [2, 3], [4], [2, 2, 3]):
+            N = len(s)
+            cells = gen.all_subs(s)
+            e = cells[(len(cells) // 3) | 1] if len(cells) > 1 else cells[0]        # the stored entry the region covers
+            others = [c for c in (cells[0], cells[-1], cells[len(cells) // 2]) if c != e][:3]
+            a = {"subs": [others[0], e] + others[1:], "vals": [2 + vshift, 3, 5, 7][:1 + len(others)]}
+            for v in (2, -3):
+                for m in range(N):
+                    for how in ("slice", "list"):
+                        for cover in ("int", "slice", "list"):
+                            parts = []
+                            for k in range(N):
+                                if k == m:
+                                    parts.append(["slice", e[k], s[k] + 2] if how == "slice" else ["list", [e[k], s[k], s[k] + 1]])
+                                elif cover == "int":
+                                    parts.append(["int", e[k]])
+                                elif cover == "slice":
+                                    parts.append(["slice", e[k], e[k] + 1])
+                                else:
+                                    parts.append(["list", [e[k]]])
+                            add("setitem:region", s, a, {"parts": parts, "v": v}, ["grow:mode", "overlap", "how:" + how, "cover:" + cover])
+                # a trailing new mode, the old cells sit at its coordinate 0
+                for last in (["slice", 0, 2], ["int", 1], ["list", [0, 1]]):
+                    parts = [["int", x] for x in e] + [last]
+                    add("setitem:region", s, a, {"parts": parts, "v": v}, ["grow:newmode", "overlap" if last[0] != "int" else "beside"])
+                    parts = [["slice", x, x + 1] for x in e] + [last]
+                    add("setitem:region", s, a, {"parts": parts, "v": v}, ["grow:newmode", "overlap" if last[0] != "int" else "beside"])
+                # growth in two modes at once over a block that holds two stored entries
+                if N >= 2:
+                    parts = [["slice", 0, s[0] + 1], ["slice", 0, s[1] + 1]] + [["slice", 0, s[k]] for k in range(2, N)]
+                    add("setitem:region", s, a, {"parts": parts, "v": v}, ["grow:two", "overlap"])
         # contract: diagonal entries that share the remaining subscripts
         cshapes = [[3, 3, 2], [2, 3, 3], [3, 2, 3], [2, 2, 2, 3], [3, 3, 4]] + ([[2, 2], [2, 3, 2, 3]] if tier == "thorough" else [])
         for s in cshapes:
